@@ -1,4 +1,5 @@
 -- root of the `Dnp3` library: generated tables, models, proofs, property theorems
 import Dnp3.Gen.All
-import Dnp3.Model.LinkReader
+import Dnp3.Props.All
 import Dnp3.Driver.Link
+import Dnp3.Driver.Transport
